@@ -36,6 +36,7 @@ class TaskResult:
         self.solver_time = 0.0
         self.contracts_used: List[str] = []
         self.specs_used: List[str] = []
+        self.lemmas_used: List[str] = []
         self.uninterpreted: List[str] = []
         self.writes: List[tuple] = []
         self.pre_sat = None
@@ -225,6 +226,7 @@ def verify_function(qualname: str, self_class: Optional[str] = None, timeout_ms=
         res.obligations = it.obligations
         res.contracts_used = sorted(it.contracts_used)
         res.specs_used = sorted(it.specs_used)
+        res.lemmas_used = sorted(it.lemmas_used)
         res.uninterpreted = sorted(it.uninterpreted)
         res.writes = sorted(set(it.writes))
         # vacuity: the precondition alone must be satisfiable
